@@ -214,6 +214,7 @@ class _Canon(ast.NodeTransformer):
 
     * ``t = t <op> e``  ->  ``t <op>= e``  for a name or a plain attribute chain ``t`` (the two spellings denote the same
       update for the numbers / bytes this package updates that way; rules speak of "the increment", not of its spelling).
+    * ``K <op> x``  ->  ``x <mirrored op> K``  for a constant-like ``K`` (literal or constant-style name).
     """
 
     @staticmethod
@@ -221,6 +222,36 @@ class _Canon(ast.NodeTransformer):
         while isinstance(e, ast.Attribute):
             e = e.value
         return isinstance(e, ast.Name)
+
+    MIRROR = {ast.Eq: ast.Eq, ast.NotEq: ast.NotEq, ast.Lt: ast.Gt, ast.Gt: ast.Lt, ast.LtE: ast.GtE, ast.GtE: ast.LtE}
+
+    @staticmethod
+    def _constant_like(e) -> bool:
+        """A literal, a negated literal, or a name spelled like a constant (MAX_GSN, TLV.kTLVType_State, HapStatusCode.SUCCESS)."""
+        import re
+
+        if isinstance(e, ast.UnaryOp) and isinstance(e.op, (ast.USub, ast.UAdd)):
+            e = e.operand
+        if isinstance(e, ast.Constant):
+            return True
+        last = e.attr if isinstance(e, ast.Attribute) else e.id if isinstance(e, ast.Name) else None
+        if last is None:
+            return False
+        base = e
+        while isinstance(base, ast.Attribute):
+            base = base.value
+        if not isinstance(base, ast.Name):
+            return False
+        if isinstance(e, ast.Attribute) and base.id[:1].isupper():
+            return True  # a member of a class / enum: CharacteristicFormats.bool, TLV.M2, PDUStatus.SUCCESS
+        return bool(re.fullmatch(r"[A-Z][A-Z0-9_]*|k[A-Z]\w*", last))
+
+    def visit_Compare(self, node: ast.Compare):
+        """`K <op> x` -> `x <mirrored op> K` for a constant-like K: comparisons are read with the constant on the right."""
+        self.generic_visit(node)
+        if len(node.ops) == 1 and type(node.ops[0]) in self.MIRROR and self._constant_like(node.left) and not self._constant_like(node.comparators[0]):
+            return ast.copy_location(ast.Compare(left=node.comparators[0], ops=[self.MIRROR[type(node.ops[0])]()], comparators=[node.left]), node)
+        return node
 
     def visit_Assign(self, node: ast.Assign):
         self.generic_visit(node)
